@@ -169,6 +169,14 @@ func (e *Engine) scanGlobals() {
 }
 
 func (e *Engine) immutableGlobal(g *ssa.Global) (Val, bool) {
+	e.mu.Lock()
+	if _, ok := e.sentinels[g]; !ok && g.Pkg != nil && !strings.HasPrefix(g.Pkg.Pkg.Path(), modPrefix) && strings.HasPrefix(g.Name(), "Err") {
+		if _, isIface := g.Type().Underlying().(*types.Pointer).Elem().Underlying().(*types.Interface); isIface {
+			// library error variables (http.ErrNoCookie, ...): assumed never reassigned, non-nil, pairwise distinct
+			e.sentinels[g] = 1000 + len(e.sentinels)
+		}
+	}
+	e.mu.Unlock()
 	if n, ok := e.sentinels[g]; ok {
 		// distinct, non-nil, and different from every run-time allocated error (those have positive payloads)
 		return IfaceV{reg.typeTag(types.NewPointer(types.Universe.Lookup("error").Type())), IntLit(int64(-n))}, true
@@ -517,4 +525,19 @@ func (e *Engine) registerAxioms() {
 			e.axiomNames = append(e.axiomNames, a.Name+": "+strings.TrimSpace(a.Text))
 		}()
 	}
+}
+
+// findPkgFrom resolves a package name as seen from pkg: its imports first, then any loaded package.
+func (e *Engine) findPkgFrom(from *types.Package, name string) *types.Package {
+	if from != nil {
+		for _, imp := range from.Imports() {
+			if imp.Name() == name {
+				return imp
+			}
+		}
+	}
+	if p := e.findPkg(name); p != nil {
+		return p.Types
+	}
+	return nil
 }
